@@ -4,11 +4,14 @@
 package hsink
 
 import (
+	"errors"
 	"io"
 	"sync"
 
 	"verif/mc/mcrt"
 )
+
+var errNoSpace = errors.New("write: no space left on device")
 
 // Sink records what is written to it.
 type Sink struct {
@@ -23,10 +26,25 @@ type Sink struct {
 	// are taken only after the stall, as a real device does.
 	Gate   chan struct{}
 	passed bool
+	// Fail makes every Write return an error (disk full) without storing anything.
+	Fail bool
+	// MayFail lets the explorer make any single Write fail (one deviation per
+	// failure); Failed counts them.
+	MayFail bool
+	Failed  int
+	// NoYield: writes are not scheduling points.  Needed for sinks written
+	// through log/slog, whose handler holds its own (real) mutex during Write:
+	// parking there would block other threads outside the scheduler.
+	NoYield bool
 	mu     sync.Mutex // only for free-running (uninstrumented) conformance runs
 }
 
 func (s *Sink) Write(p []byte) (int, error) {
+	if s.Fail {
+		mcrt.Yield("failing-write:" + s.Name)
+		s.Writes++
+		return 0, errNoSpace
+	}
 	if !mcrt.Active() {
 		s.mu.Lock()
 		defer s.mu.Unlock()
@@ -34,12 +52,18 @@ func (s *Sink) Write(p []byte) (int, error) {
 		s.Writes++
 		return len(p), nil
 	}
+	if s.MayFail && mcrt.Choose(2, "write-error:"+s.Name) == 1 {
+		s.Failed++
+		return 0, errNoSpace
+	}
 	if s.Gate != nil && !s.passed {
 		mcrt.Recv2(s.Gate)
 		s.passed = true
 	}
-	mcrt.Yield("write:" + s.Name)
-	if s.Split && len(p) > 1 {
+	if !s.NoYield {
+		mcrt.Yield("write:" + s.Name)
+	}
+	if s.Split && len(p) > 1 && !s.NoYield {
 		h := len(p) / 2
 		s.Buf = append(s.Buf, p[:h]...)
 		mcrt.Yield("write-second-half:" + s.Name)
@@ -58,6 +82,9 @@ func (s *Sink) Len() int { return len(s.Buf) }
 type Sinks struct {
 	ByLeader map[string]*Sink
 	Split    bool
+	Fail     bool
+	// MayFailTrailer: sinks whose file name ends like this may fail single writes.
+	MayFailTrailer string
 }
 
 // New is installed as mcrt.NewDailySink.
@@ -65,7 +92,14 @@ func (f *Sinks) New(dir, leader, trailer string) io.Writer {
 	if f.ByLeader == nil {
 		f.ByLeader = map[string]*Sink{}
 	}
-	s := &Sink{Name: leader + trailer, Split: f.Split}
+	s := &Sink{Name: leader + trailer, Split: f.Split, Fail: f.Fail}
+	if f.MayFailTrailer != "" && trailer == f.MayFailTrailer {
+		s.MayFail = true
+	}
+	if trailer == ".log" {
+		// event logs are written through log/slog
+		s.NoYield, s.Fail = true, false
+	}
 	f.ByLeader[leader+trailer] = s
 	return s
 }
@@ -111,6 +145,8 @@ func (r *ChunkReader) Read(p []byte) (int, error) {
 		if c := mcrt.Choose(len(sizes), "chunk"); sizes[c] > 0 && sizes[c] < n {
 			n = sizes[c]
 		}
+	} else if len(sizes) == 1 && sizes[0] > 0 && sizes[0] < n {
+		n = sizes[0] // fixed chunk size
 	}
 	if n > len(p) {
 		n = len(p)
